@@ -1,5 +1,6 @@
 import NbioVerif.Lemmas.C06Chain
 import NbioVerif.Lemmas.C08Glue
+import NbioVerif.Lemmas.C06Bridge
 /-! C06: HTTP/1.x parsing is independent of how the byte stream is segmented.
 
 The generic refinement (Go-shaped index loop ≡ byte-at-a-time spec, `Scan.implParse_eq_spec`, `specFeed_append`,
@@ -25,6 +26,33 @@ theorem c06_driver_bridge (g : Cfg) (limit : Nat) (st : P) (cache data : Bytes) 
 theorem c06_http_driver (g : Cfg) (segs : List Bytes) :
     feedAllL (machine g) 0 (init g) [] segs [] = feedAllL (machine g) 0 (init g) [] [segs.flatten] [] :=
   feedAllL_segmentation_independent (machine g) (wf g) 0 (init g) segs (noTrip_zero _ _ _ _ _) (noTrip_zero _ _ _ _ _)
+
+/-- **C06 for the driver's D lines.** The D lines call `HttpEngine.parseE` (Parse + CloseAndClean on error) once per
+    read on the parser the previous line left; that chain is `feedAllL` — same events, same final (state, cache), same
+    first error, closed and silent afterwards — for every list of reads, empty ones included. -/
+theorem c06_dlines (g : Cfg) (limit : Nat) (segs : List Bytes) :
+    HttpEngine.ChainIs (feedAllL (machine g) limit (init g) [] segs [])
+      (HttpEngine.chainE (machine g) limit { st := init g, cache := [] } segs [] none) :=
+  HttpEngine.chainE_eq_feedAllL (machine g) limit segs (init g) [] []
+
+/-- … hence, ReadLimit disabled, the events of the D-line chain and its first error do not depend on the segmentation -/
+theorem c06_dlines_segmentation (g : Cfg) (segs : List Bytes) :
+    (HttpEngine.chainE (machine g) 0 { st := init g, cache := [] } segs [] none).2 =
+      (HttpEngine.chainE (machine g) 0 { st := init g, cache := [] } [segs.flatten] [] none).2 := by
+  have h1 := c06_dlines g 0 segs
+  have h2 := c06_dlines g 0 [segs.flatten]
+  rw [c06_http_driver g segs] at h1
+  revert h1 h2
+  cases feedAllL (machine g) 0 (init g) [] [segs.flatten] [] with
+  | mk evs fin =>
+    cases fin with
+    | inl pr => intro h1 h2; simp only [HttpEngine.ChainIs] at h1 h2; rw [h1, h2]
+    | inr e =>
+      intro h1 h2
+      simp only [HttpEngine.ChainIs] at h1 h2
+      obtain ⟨_, _, e1⟩ := h1
+      obtain ⟨_, _, e2⟩ := h2
+      rw [e1, e2]
 
 /-- C06 with a ReadLimit: equal results whenever neither run hits the limit test -/
 theorem c06_http_driver_limit (g : Cfg) (limit : Nat) (segs : List Bytes)
